@@ -502,7 +502,7 @@ func assumptionsFor(prop string) []string {
 		"A13: package sort is modelled (result ordered by the package's comparison; permutation of the input not tracked)",
 		"A14: arithmetic on float literals and math.Sqrt of a literal are evaluated with the IEEE 754 arithmetic of the machine running the verifier",
 		"A15: with option nan-axioms the IEEE rules for NaN results of + - * / are assumed for the otherwise uninterpreted operations",
-		"A16: functions declared trusted in the contract files (assembly kernels, fftpack transforms and initialisers, mat.offset, interp.findSegment as a model of the library binary search) are assumed to satisfy their contracts; they are listed under coverage.trusted_no_body when a checked function of this property depends on them",
+		"A16: functions declared trusted in the contract files (assembly kernels, fftpack transforms and initialisers, mat.offset, interp.findSegment as a model of the library binary search, the mat workspace pool getFloat64s / putFloat64s / getInts / putInts as a fresh slice of the requested length, Cholesky.updateCond as modifying c.cond only, lapack Dlasq1 and Dlasq3 (goto)) are assumed to satisfy their contracts; they are listed under coverage.trusted_no_body when a checked function of this property depends on them",
 	}
 }
 
